@@ -161,10 +161,33 @@ def programs():
     for i, s in enumerate(extra):
         wrap = "module m\n  %s\nend module m\n" if re.match(r"\s*(character|real|integer)\b", s) else "program p\n  %s\nend program p\n"
         out.append(("tokens:%d" % i, wrap % s, "f2003"))
+    # operand inflation: every name or number of a corpus statement in turn replaced by a parenthesised expression, a
+    # call with two arguments and a literal with brackets inside - wherever the result is still a valid statement its
+    # lexical content must come back (the parser abstracts such operands by placeholders and has to restore each one)
+    inflated = []
+    for kind, wrapper, stmts in (("exec", "program p\n  %s\nend program p\n", ER.EXEC), ("spec", "module m\n  %s\nend module m\n", ER.SPEC)):
+        for i, st in enumerate(stmts):
+            if "\n" in st:
+                continue
+            toks = [(m.lastgroup, m.start(), m.end()) for m in TOKEN.finditer(st)]
+            n = 0
+            for kind_t, a, b in toks:
+                if kind_t not in ("name", "num") or (kind_t == "name" and st[a:b].lower() in KEYWORDS):
+                    continue
+                if b < len(st) and st[b:].lstrip()[:1] in ("(", "=", "%") and kind_t == "name":
+                    continue            # a designator head or a keyword argument
+                for j, repl in enumerate(("(zq + 1)", "fq(zq, 2)", "len('a(b')")):
+                    n += 1
+                    inflated.append(("inflated:%s:%d:%d" % (kind, i, n), wrapper % (st[:a] + repl + st[b:]), "f2003"))
+    out += inflated
     # function suffixes and procedure headers
     out.append(("header:0", "function f(x) bind(c) result(r)\nend function f\n", "f2003"))
     out.append(("header:1", "function f(x) result(r) bind(c)\nend function f\n", "f2003"))
     out.append(("header:2", "pure recursive integer function g(a, b) result(res)\nend function g\n", "f2003"))
+    out.append(("header:3", "character(len=n(1, 2)) function cf(x)\nend function cf\n", "f2003"))
+    out.append(("header:4", "real(kind=kk(1, 2)) function rf(x) result(r)\nend function rf\n", "f2003"))
+    out.append(("header:5", "type(pt(k(1, 2), 3)) function tf()\nend function tf\n", "f2003"))
+    out.append(("header:6", "subroutine sb(a, b) bind(c, name='s(b')\nend subroutine sb\n", "f2003"))
     # continuation inside a literal with blanks after the leading '&'
     out.append(("layout:0", "program p\n  msg = 'alpha&\n      &   beta  '\nend program p\n", "f2003"))
     out.append(("layout:1", "program p\n  x = 1.0e&\n  &-3 + y\nend program p\n", "f2003"))
@@ -173,7 +196,7 @@ def programs():
 
 def run(tier):
     from fparser.two.parser import ParserFactory
-    from fparser.two.utils import FortranSyntaxError
+    from fparser.two.utils import FortranSyntaxError, FparserException
     from fparser.common.readfortran import FortranStringReader
     failures, cases, samples = [], 0, []
     for name, src, std in programs():
@@ -186,10 +209,16 @@ def run(tier):
             except FortranSyntaxError:
                 continue            # acceptance is not this check's business (C17 / C08)
             except BaseException as e:  # noqa
+                if name.startswith("inflated:") and isinstance(e, FparserException):
+                    continue        # an inflated statement need not be valid; which exception rejects it is C06's business
                 failures.append(dict(obligation="tokens#parse_or_syntax_error", witness=dict(program=name, source=src), observed="%s: %s" % (type(e).__name__, str(e)[:120])))
                 continue
             want = lexical_content(strip_comments(src))
             got = lexical_content(strip_comments(str(tree)))
+            if "F2PY_" in str(tree) and "F2PY_" not in src:
+                failures.append(dict(obligation="tokens#no_internal_placeholder_in_printed_text", witness=dict(program=name, std=std, options=kw, source=src),
+                                     observed=dict(printed=str(tree)[:400])))
+                continue
             # keyword-like names (intrinsic procedures, edit descriptors) are printed in upper case: accepted as keyword case
             same = len(want) == len(got) and all(a == b or (a[0] == b[0] == "name" and b[1] == a[1].upper()) for a, b in zip(want, got))
             if not same:
